@@ -114,8 +114,10 @@ def same(a, b):
     if ka != kb:
       return False
     return all(same(a.sym_getattr(k), b.sym_getattr(k)) for k in ka)
+  # (a plain list/dict nested in a tuple comes back as pg.List/pg.Dict: the documented "plain containers
+  # become symbolic ones"; list-ness / dict-ness and contents must agree)
   if isinstance(a, (list, tuple)) and isinstance(b, (list, tuple)):
-    return type(a) is type(b) and len(a) == len(b) and all(same(x, y) for x, y in zip(a, b))
+    return isinstance(a, tuple) == isinstance(b, tuple) and len(a) == len(b) and all(same(x, y) for x, y in zip(a, b))
   if isinstance(a, dict) and isinstance(b, dict):
     return list(a.keys()) == list(b.keys()) and all(same(a[k], b[k]) for k in a)
   if type(a) is not type(b) and not (isinstance(a, (int, float)) and isinstance(b, (int, float))):
